@@ -9,11 +9,15 @@ Does not decide equivalence with a map model over histories, nor expiry timing.
 from __future__ import annotations
 
 import ast
+import copy
 import re
 
 from ..prog import AnalysisError, ClassInfo, FuncInfo, dotted, unparse
+from ..absint import to_poly
+from ..flow import cond_atoms
 from ..match import pretty
 from ..summaries import Writes, returns_only_none
+from .. import sem
 
 PROP = "C12"
 LDM = "facilities.local_dynamic_map"
@@ -37,6 +41,273 @@ def norm(s):
 
 def snake(camel: str) -> str:
     return re.sub(r"(?<!^)(?=[A-Z])", "_", camel).lower()
+
+
+# ---------------------------------------------------------------------------------------------------------------------
+# helpers: mutations of a container attribute (through local aliases), must-executed stores, path conditions
+# ---------------------------------------------------------------------------------------------------------------------
+def _load(e: ast.AST) -> ast.AST:
+    e = copy.deepcopy(e)
+    for n in ast.walk(e):
+        if hasattr(n, "ctx"):
+            n.ctx = ast.Load()
+    return e
+
+
+def _chain(e: ast.AST):
+    """expression -> (dotted root, [steps]) with steps ('sub', key) / ('call', method, call node) / ('attr', name)."""
+    steps, cur = [], e
+    while True:
+        if isinstance(cur, ast.Subscript):
+            steps.append(("sub", cur.slice))
+            cur = cur.value
+        elif isinstance(cur, ast.Call) and isinstance(cur.func, ast.Attribute):
+            steps.append(("call", cur.func.attr, cur))
+            cur = cur.func.value
+        elif isinstance(cur, ast.Attribute) and dotted(cur) is None:
+            steps.append(("attr", cur.attr))
+            cur = cur.value
+        else:
+            break
+    steps.reverse()
+    return dotted(cur), steps
+
+
+def _rooted(fl, expr: ast.AST, st, root: str) -> list:
+    """Step lists of every expansion of `expr` (locals resolved through all their reaching definitions) that denotes
+    `root` or something reached from it."""
+    out = []
+    for alt in fl.alternatives(_load(expr), st):
+        d, steps = _chain(alt)
+        if d is None:
+            continue
+        if d == root:
+            out.append(steps)
+        elif d.startswith(root + "."):
+            out.append([("attr", a) for a in d[len(root) + 1:].split(".")] + steps)
+    return out
+
+
+READ_ONLY = {"get", "items", "values", "keys", "copy", "all", "search", "contains", "count", "__len__", "__contains__"}
+
+
+def mutations(fl, fi: FuncInfo, root: str) -> list:
+    """Every statement / call in `fi` that may change the object held in `root` (an attribute chain such as
+    self.database) or anything reached from it - also through local aliases.  Entries:
+    dict(kind='store'|'aug'|'delete'|'rebind'|'call', steps=[...], value=<ast|None>, stmt=<ast.stmt>, node=<ast>)."""
+    out = []
+
+    def targets(t):
+        if isinstance(t, (ast.Tuple, ast.List)):
+            for e in t.elts:
+                yield from targets(e)
+        elif isinstance(t, ast.Starred):
+            yield from targets(t.value)
+        else:
+            yield t
+
+    for n in ast.walk(fi.node):
+        if isinstance(n, (ast.FunctionDef, ast.AsyncFunctionDef, ast.Lambda)) and n is not fi.node:
+            continue
+        pairs = []
+        if isinstance(n, ast.Assign):
+            pairs = [("store", t, n.value) for tt in n.targets for t in targets(tt)]
+        elif isinstance(n, ast.AnnAssign) and n.value is not None:
+            pairs = [("store", n.target, n.value)]
+        elif isinstance(n, ast.AugAssign):
+            pairs = [("aug", n.target, n.value)]
+        elif isinstance(n, ast.Delete):
+            pairs = [("delete", t, None) for tt in n.targets for t in targets(tt)]
+        elif isinstance(n, (ast.For, ast.AsyncFor)):
+            pairs = [("store", t, None) for t in targets(n.target)]
+        if pairs and id(n) in fl.before:
+            st = fl.before[id(n)]
+            for kind, t, v in pairs:
+                if isinstance(t, ast.Name):
+                    continue
+                for steps in _rooted(fl, t, st, root):
+                    k = kind
+                    if not steps and kind == "store":
+                        k = "rebind"
+                    out.append(dict(kind=k, steps=steps, value=v, stmt=n, node=t))
+        if isinstance(n, ast.Call) and isinstance(n.func, ast.Attribute) and n.func.attr not in READ_ONLY:
+            try:
+                st = fl.state_at(n)
+            except AnalysisError:
+                continue
+            for steps in _rooted(fl, n.func.value, st, root):
+                out.append(dict(kind="call", steps=steps, value=n, stmt=fl.stmt_of.get(id(n)), node=n, method=n.func.attr))
+    return out
+
+
+def _block_of(fl, s: ast.AST):
+    """(parent node, statement list containing s)"""
+    par = fl.parent.get(id(s))
+    if par is None:
+        return None, None
+    for fld in ("body", "orelse", "finalbody"):
+        b = getattr(par, fld, None)
+        if isinstance(b, list) and any(x is s for x in b):
+            return par, b
+    return par, None
+
+
+def certainly_executed(fl, fi: FuncInfo, st, stmt: ast.AST, exit_stmt, what: str) -> bool:
+    """The item store / call written at statement `stmt` has certainly happened when the exit `exit_stmt` (None: falling
+    off the end) is reached in state `st`.  Either the flow walker recorded it as a must-call fact (facts are tagged with
+    the line of the statement that produced them and survive kills in degraded form), or `stmt` dominates the exit
+    structurally: it sits - possibly inside `with` blocks - in a statement list that also contains, further down, the
+    exit or a statement enclosing it."""
+    for f in st.facts:
+        if f.kind != "call" or f.line != getattr(stmt, "lineno", -1) or not isinstance(f.node, ast.Call):
+            continue
+        fn = f.node.func
+        if what == "__setitem__" and isinstance(fn, ast.Name) and fn.id == "__setitem__":
+            return True
+        if what != "__setitem__" and isinstance(fn, ast.Attribute) and fn.attr == what:
+            return True
+    s = stmt if isinstance(stmt, ast.stmt) else fl.stmt_of.get(id(stmt))
+    if s is None:
+        return False
+    # blocks (statement lists) on the way from the function body down to the exit, with the index the path takes
+    chain = []
+    if exit_stmt is None:
+        chain.append((fi.node.body, len(fi.node.body)))
+    else:
+        cur = exit_stmt
+        while cur is not fi.node and cur is not None:
+            par, blk = _block_of(fl, cur)
+            if blk is not None:
+                chain.append((blk, [i for i, x in enumerate(blk) if x is cur][0]))
+            cur = par
+    while True:
+        par, blk = _block_of(fl, s)
+        if blk is None:
+            return False
+        for b, idx in chain:
+            if b is blk:
+                return [i for i, x in enumerate(blk) if x is s][0] < idx
+        if isinstance(par, (ast.With, ast.AsyncWith)) and blk is par.body:
+            s = par
+            continue
+        return False
+
+
+def success_exits(fl) -> list:
+    """(stmt, state) of every normal exit that does not return a constant False / None."""
+    out = []
+    for k, s, st in fl.exits:
+        if k == "fall":
+            out.append((None, st))
+        elif k == "return":
+            v = s.value
+            if isinstance(v, ast.Constant) and v.value in (False, None):
+                continue
+            out.append((s, st))
+    return out
+
+
+def counter_value(P, fl, mod, e: ast.AST, st, attr: str, depth: int = 0):
+    """Value of an integer expression as (k, c) meaning k * C0 + c, where C0 is the value `attr` had when the function
+    was entered; None when the expression is not such a linear form (e.g. derived from len(...), merged definitions)."""
+    if depth > 10:
+        return None
+    c = P.try_fold(mod, e, default="<nc>")
+    if c != "<nc>":
+        return (0, c) if isinstance(c, int) and not isinstance(c, bool) else None
+    d = dotted(e)
+    if isinstance(e, ast.Name):
+        mo = re.match(r"^(.+)@(p?)([0-9_]+)$", e.id)      # version token left by FunctionFlow.expand
+        if mo:
+            if mo.group(2):
+                return None                                # merge of several definitions
+            di = fl.defs.get(int(mo.group(3)))
+            if di is None or di.kind not in ("assign", "aug") or di.value is None or id(di.stmt) not in fl.before:
+                return None
+            return counter_value(P, fl, mod, di.value, fl.before[id(di.stmt)], attr, depth + 1)
+    if d is not None and (isinstance(e, ast.Name) or d == attr):
+        ds = st.defs.get(d)
+        if not ds:
+            return (1, 0) if d == attr else None
+        if len(ds) != 1:
+            return None
+        di = fl.defs[next(iter(ds))]
+        if di.kind not in ("assign", "aug") or di.value is None or id(di.stmt) not in fl.before:
+            return None
+        return counter_value(P, fl, mod, di.value, fl.before[id(di.stmt)], attr, depth + 1)
+    if isinstance(e, ast.BinOp) and isinstance(e.op, (ast.Add, ast.Sub)):
+        a = counter_value(P, fl, mod, e.left, st, attr, depth + 1)
+        b = counter_value(P, fl, mod, e.right, st, attr, depth + 1)
+        if a is None or b is None:
+            return None
+        sg = 1 if isinstance(e.op, ast.Add) else -1
+        return (a[0] + sg * b[0], a[1] + sg * b[1])
+    if isinstance(e, ast.Call) and dotted(e.func) == "int" and len(e.args) == 1 and not e.keywords:
+        return counter_value(P, fl, mod, e.args[0], st, attr, depth + 1)
+    return None
+
+
+def _definitely_exits(stmts: list) -> bool:
+    return bool(stmts) and isinstance(stmts[-1], (ast.Return, ast.Raise, ast.Continue, ast.Break))
+
+
+def _may_exit(s: ast.AST) -> bool:
+    for n in ast.walk(s):
+        if isinstance(n, (ast.Return, ast.Raise, ast.Continue, ast.Break, ast.Assert)):
+            return True
+    return False
+
+
+def path_guards(fl, fi: FuncInfo, node: ast.AST):
+    """Conditions under which `node` is evaluated, read off the statement structure:
+    -> ([(test, polarity, stmt)], [problems]).  Enclosing `if` branches, preceding `if ...: return/raise` exits and
+    asserts are guards; `with` blocks are transparent; anything else on the way (loops, try, short-circuit operators,
+    early exits of other shapes) is reported as a problem.  Completeness is cross-checked with the flow walker: every
+    condition fact in force at the node must stem from one of the guards found."""
+    guards, problems = [], []
+    s = node if isinstance(node, ast.stmt) else fl.stmt_of.get(id(node))
+    if s is None:
+        return guards, ["statement of the call not found"]
+    cur = s
+    while cur is not fi.node:
+        par = fl.parent.get(id(cur))
+        if par is None:
+            problems.append("enclosing block not found")
+            break
+        which, block = None, None
+        for fld in ("body", "orelse", "finalbody"):
+            b = getattr(par, fld, None)
+            if isinstance(b, list) and any(x is cur for x in b):
+                which, block = fld, b
+        if block is None:
+            problems.append(f"unrecognised enclosing construct {type(par).__name__}")
+            break
+        for sib in block:
+            if sib is cur:
+                break
+            if isinstance(sib, ast.Assert):
+                guards.append((sib.test, True, sib))
+            elif isinstance(sib, ast.If) and not sib.orelse and _definitely_exits(sib.body) and \
+                    not any(_may_exit(x) for x in sib.body[:-1]):
+                guards.append((sib.test, False, sib))
+            elif _may_exit(sib):
+                problems.append(f"statement at line {sib.lineno} can leave the function before the call")
+        if isinstance(par, ast.If):
+            guards.append((par.test, which == "body", par))
+        elif isinstance(par, (ast.With, ast.AsyncWith)) or par is fi.node:
+            pass
+        else:
+            problems.append(f"the call sits inside a {type(par).__name__} block (line {getattr(par, 'lineno', '?')})")
+        cur = par
+    lines = {g[2].lineno for g in guards}
+    try:
+        st = fl.state_at(node)
+        for f in st.facts:
+            if f.kind == "cond" and f.line not in lines:
+                problems.append(f"condition `{'' if f.pol else 'not '}{pretty(f.xkey)[:60]}` (line {f.line}) also guards the call")
+    except AnalysisError as e:
+        problems.append(str(e))
+    return guards, sorted(set(problems))
 
 
 def run(ctx):
@@ -76,6 +347,26 @@ def run(ctx):
     ctx.floor("C12.effects", 25)
 
     # ---- gating
+    sv_cls = P.cls(SV)
+
+    def service_targets(m, call, names):
+        return [t for t in P.call_targets(m, call, count=False) if isinstance(t, FuncInfo) and t.name in names
+                and t.cls is not None and any(c.qual == sv_cls.qual for c in t.cls.mro())]
+
+    def registered(m, fl, node, registry) -> bool:
+        """A must-fact `<request>.application_id in <service>.<registry getter>()` is in force at `node`."""
+        req = m.params[1]
+        for f in fl.state_at(node).facts:
+            if f.kind != "cond" or not f.pol or not isinstance(f.xnode, ast.Compare) or len(f.xnode.ops) != 1 \
+                    or not isinstance(f.xnode.ops[0], ast.In):
+                continue
+            left, right = f.xnode.left, f.xnode.comparators[0]
+            if not sem.same(left, f"{req}.application_id"):
+                continue
+            if isinstance(right, ast.Call) and not right.args and not right.keywords and service_targets(m, right, (registry,)):
+                return True
+        return False
+
     for name, registry, callee_names in (("add_provider_data", "get_data_provider_its_aid", ("add_provider_data",)),
                                          ("update_provider_data", "get_data_provider_its_aid", ("update_provider_data",)),
                                          ("delete_provider_data", "get_data_provider_its_aid", ("del_provider_data", "delete_provider_data"))):
@@ -83,10 +374,9 @@ def run(ctx):
         fl = ctx.flows.get(m)
         n = 0
         for c in P.calls_in(m):
-            if isinstance(c.func, ast.Attribute) and c.func.attr in callee_names and "ldm_service" in unparse(c.func.value):
+            if isinstance(c.func, ast.Attribute) and service_targets(m, c, callee_names):
                 n += 1
-                conds = {norm(pretty(f.xkey)): f.pol for f in fl.state_at(c).facts if f.kind == "cond"}
-                ok = conds.get(f"data_provider.application_idinself.ldm_service.{registry}()") is True
+                ok = registered(m, fl, c, registry)
                 ctx.ob("C12.gated", m.short(), f"{c.func.attr}", ok,
                        f"the store is changed only for a registered provider" if ok else
                        f"{name} reaches the store without testing `application_id in {registry}()`: an unregistered application "
@@ -95,29 +385,83 @@ def run(ctx):
             raise AnalysisError(f"C12: {name} no longer calls the service")
     m = if4.methods["request_data_objects"]
     fl = ctx.flows.get(m)
+    nq = 0
     for c in P.calls_in(m):
-        if isinstance(c.func, ast.Attribute) and c.func.attr == "query":
-            conds = {norm(pretty(f.xkey)): f.pol for f in fl.state_at(c).facts if f.kind == "cond"}
-            ok = conds.get("data_request.application_idinself.ldm_service.get_data_consumer_its_aid()") is True
+        if isinstance(c.func, ast.Attribute) and service_targets(m, c, ("query",)):
+            nq += 1
+            ok = registered(m, fl, c, "get_data_consumer_its_aid")
             ctx.ob("C12.gated", m.short(), "query", ok, "queries are answered only for registered consumers", f"{m.module.rel}:{c.lineno}")
+    if nq == 0:
+        raise AnalysisError("C12: request_data_objects no longer queries the service")
 
     # ---- update scope: only the content member of the record is replaced
+    CONTENT = "dataObject"
     for q in (DB, TDB):
         u = P.cls(q).methods["update"]
-        src = norm(unparse(u.node))
+        if len(u.params) < 3:
+            raise AnalysisError(f"C12: {u.short()} no longer takes (data, index)")
+        p_data, p_index = u.params[1], u.params[2]
+        ufl = ctx.flows.get(u)
+        muts = mutations(ufl, u, "self.database")
+        exits = success_exits(ufl)
+        good, bad = [], []
         if q == DB:
-            ok = "self.database[index]['dataObject']=data" in src or "self.database[index][DATA_OBJECT_FIELD_NAME]=data" in src
-            whole = "self.database[index]=data" in src
-            ctx.ob("C12.update-scope", u.short(), "content-only", ok and not whole,
-                   "update replaces only record['dataObject']" if ok and not whole else
-                   "update overwrites the WHOLE stored record with the bare message: application id, timestamp, location and "
-                   "time validity of the object are lost (the next expiry pass raises KeyError('timeValidity'))", u.loc)
+            # the only change to the store is  <record of index>[CONTENT] = data  (the record may be held in a local)
+            for mu in muts:
+                st = ufl.before.get(id(mu["stmt"]))
+                steps = mu["steps"]
+                if mu["kind"] == "store" and len(steps) == 2 and steps[0][0] == "sub" and steps[1][0] == "sub" and st is not None \
+                        and sem.same(steps[0][1], p_index) and P.try_fold(u.module, steps[1][1]) == CONTENT \
+                        and sem.same(ufl.expand(mu["value"], st), p_data):
+                    good.append(mu)
+                elif mu["kind"] in ("store", "rebind") and len(steps) <= 1:
+                    bad.append((mu, "overwrites the WHOLE stored record with the bare message: application id, timestamp, location and "
+                                    "time validity of the object are lost (the next expiry pass raises KeyError('timeValidity'))"))
+                elif mu["kind"] == "call" and len(steps) == 1 and mu.get("method") in ("update", "__ior__"):
+                    bad.append((mu, "merges the message's top-level keys into the record instead of replacing its "
+                                    f"'{CONTENT}' member"))
+                else:
+                    bad.append((mu, f"changes the store in another way than replacing record['{CONTENT}'] "
+                                    f"(`{unparse(mu['node'])[:60]}`)"))
+            always = bool(exits) and bool(good) and all(any(certainly_executed(ufl, u, st, g["stmt"], es, "__setitem__") for g in good) for es, st in exits)
+            ok = always and not bad
+            if ok:
+                msg = f"update replaces only record['{CONTENT}'] of the record with the given index, on every successful return"
+            elif bad:
+                msg = "update " + bad[0][1]
+            elif not good:
+                msg = f"update never stores the new message under record['{CONTENT}'] of the record with the given index"
+            else:
+                msg = f"update can report success without having replaced record['{CONTENT}']"
+            ctx.ob("C12.update-scope", u.short(), "content-only", ok, msg, u.loc)
         else:
-            ok = "self.database.update({'dataObject':data},doc_ids=[index])" in src or \
-                 "self.database.update({DATA_OBJECT_FIELD_NAME:data},doc_ids=[index])" in src
+            # document store: the only change is  table.update({CONTENT: data}, doc_ids=[index])
+            merged = False
+            for mu in muts:
+                c = mu["value"]
+                st = ufl.before.get(id(mu["stmt"]))
+                if mu["kind"] == "call" and not mu["steps"] and mu.get("method") == "update" and st is not None:
+                    kws = {k.arg: k.value for k in c.keywords if k.arg}
+                    fields = ufl.expand(c.args[0], st) if c.args else (ufl.expand(kws["fields"], st) if "fields" in kws else None)
+                    ids = ufl.expand(kws["doc_ids"], st) if "doc_ids" in kws else None
+                    f_ok = isinstance(fields, ast.Dict) and len(fields.keys) == 1 and fields.keys[0] is not None and \
+                        P.try_fold(u.module, fields.keys[0]) == CONTENT and sem.same(fields.values[0], p_data)
+                    i_ok = isinstance(ids, (ast.List, ast.Tuple)) and len(ids.elts) == 1 and sem.same(ids.elts[0], p_index)
+                    if f_ok and i_ok:
+                        good.append(mu)
+                        continue
+                    if fields is not None and sem.same(fields, p_data):
+                        merged = True
+                    bad.append((mu, f"`{unparse(c)[:70]}`"))
+                else:
+                    bad.append((mu, f"`{unparse(mu['node'])[:70]}`"))
+            always = bool(exits) and bool(good) and all(any(certainly_executed(ufl, u, st, g["stmt"], es, "update") for g in good) for es, st in exits)
+            ok = always and not bad
             ctx.ob("C12.update-scope", u.short(), "content-only", ok,
-                   "update replaces only the 'dataObject' member of the document" if ok else
-                   "update merges the message's top-level keys into the record instead of replacing its 'dataObject' member", u.loc)
+                   f"update replaces only the '{CONTENT}' member of the document" if ok else
+                   (f"update merges the message's top-level keys into the record instead of replacing its '{CONTENT}' member" if merged else
+                    f"update does not (only) replace the '{CONTENT}' member of the document with the given id"
+                    + (f": {bad[0][1]}" if bad else "")), u.loc)
 
     # ---- success tests that cannot succeed
     for ci in (if3, if4):
@@ -132,7 +476,7 @@ def run(ctx):
                         if isinstance(d.value, ast.Call):
                             tg = [t for t in P.call_targets(m, d.value, count=False) if isinstance(t, FuncInfo)]
                             if tg:
-                                dead = all(returns_only_none(P, t) for t in tg)
+                                dead = all(returns_only_none(P, t, ctx.flows) for t in tg)
                                 ctx.ob("C12.dead-success", m.short(), f"{n.test.left.id}<-{tg[0].name}", not dead,
                                        f"`{unparse(n.test)}` tests the result of {tg[0].short()}" +
                                        (", which can return a value" if not dead else
@@ -170,41 +514,139 @@ def run(ctx):
     # ---- identifiers
     db = P.cls(DB)
     ins = db.methods["insert"]
-    fl = ctx.flows.get(ins)
-    src = norm(unparse(ins.node))
-    ctx.ob("C12.ids", ins.short(), "allocate", "index=self._next_id" in src and "self.database[index]=data" in src and
-           "self._next_id+=1" in src and "returnindex" in src, "identifier = counter, then counter += 1 (never derived from the store's size)", ins.loc)
+    ifl = ctx.flows.get(ins)
+    COUNTER = "self._next_id"
+    if len(ins.params) < 2:
+        raise AnalysisError("C12: DictionaryDataBase.insert no longer takes the record")
+    p_rec = ins.params[1]
+    why = []
+    rets = [(k, s_, st) for k, s_, st in ifl.exits if k in ("return", "fall")]
+    if not rets:
+        why.append("insert has no normal exit")
+    # (a) the only change to the store is  store[<counter at entry>] = <the record given>
+    stores = []
+    for mu in mutations(ifl, ins, "self.database"):
+        st = ifl.before.get(id(mu["stmt"]))
+        key = mu["steps"][0][1] if len(mu["steps"]) == 1 and mu["steps"][0][0] == "sub" else None
+        if mu["kind"] == "store" and key is not None and st is not None:
+            kv = counter_value(P, ifl, ins.module, key, st, COUNTER)
+            if kv != (1, 0):
+                why.append(f"the record is stored under `{unparse(mu['node'].slice)}`, which is not the value the id counter had on entry")
+            elif not sem.same(ifl.expand(mu["value"], st), p_rec):
+                why.append(f"`{unparse(mu['value'])[:40]}` is stored instead of the record given")
+            else:
+                stores.append(mu)
+        else:
+            why.append(f"insert changes the store in another way than adding the record (`{unparse(mu['node'])[:50]}`)")
+    if not stores:
+        why.append("insert never stores the record under the identifier")
+    for k, s_, st in rets:
+        where = f"line {s_.lineno}" if s_ is not None else "end of function"
+        # (b) the identifier returned is the counter value at entry
+        rv = counter_value(P, ifl, ins.module, s_.value, st, COUNTER) if (s_ is not None and s_.value is not None) else None
+        if rv != (1, 0):
+            why.append(f"the value returned at {where} is not the value the id counter had on entry "
+                       "(an identifier derived from anything else, e.g. the store's size, is handed out again after a removal)")
+        # (c) the counter has advanced by exactly one
+        cv = counter_value(P, ifl, ins.module, ast.parse(COUNTER, mode="eval").body, st, COUNTER)
+        if cv != (1, 1):
+            why.append(f"at {where} the id counter is not exactly one above its value on entry")
+        # (d) the record has certainly been stored
+        if stores and not any(certainly_executed(ifl, ins, st, mu["stmt"], s_, "__setitem__") for mu in stores):
+            why.append(f"the exit at {where} can be reached without the record having been stored")
+    ctx.ob("C12.ids", ins.short(), "allocate", not why,
+           "identifier = counter, then counter += 1 (never derived from the store's size)" if not why else
+           "identifier allocation is not `id = counter; store[id] = record; counter += 1; return id`: " + "; ".join(dict.fromkeys(why)), ins.loc)
     for m in db.methods.values():
         if m.name in ("__init__", "insert", "delete"):
             continue
-        wr = [n for n in ast.walk(m.node) if isinstance(n, ast.Attribute) and n.attr == "_next_id" and isinstance(n.ctx, ast.Store)]
+        wr = [n for n in ast.walk(m.node) if isinstance(n, ast.Attribute) and n.attr == "_next_id" and isinstance(n.ctx, (ast.Store, ast.Del))]
         ctx.ob("C12.ids", m.short(), "no-counter-write", not wr, f"{m.name} " + ("does not touch the id counter" if not wr else
                                                                                 "writes the id counter: identifiers can be reused"), m.loc)
+    outside = []
+    for f2 in P.iter_funcs():
+        if f2.cls is not None and any(c.qual == db.qual for c in f2.cls.mro()):
+            continue
+        for n in ast.walk(f2.node):
+            if isinstance(n, ast.Attribute) and n.attr == "_next_id" and isinstance(n.ctx, (ast.Store, ast.Del)):
+                ts = {t for t in P.expr_types(f2, n.value) if isinstance(t, str)}
+                if db.qual in ts or not ts:
+                    outside.append(f"{f2.short()}:{n.lineno}")
+    ctx.ob("C12.ids", db.qual[len("flexstack."):], "counter-private", not outside,
+           "the id counter is written only by the store class itself" if not outside else
+           f"the id counter is written from outside the store class ({outside[:3]}): identifiers can be reused", db.module.rel)
     # ---- expiry
+    gadc = P.func(f"{MT}.get_all_data_containers")
+    NOW = "TimestampIts.initialize_with_utc_timestamp_seconds(int(TimeService.time()))"
+
+    def scans_all(f2, fl2, loop) -> bool:
+        """`loop` is a for statement ranging over the result of get_all_data_containers() (directly, through a local, or
+        through list()/tuple())."""
+        if not isinstance(loop, ast.For) or id(loop) not in fl2.before:
+            return False
+        it = fl2.expand(loop.iter, fl2.before[id(loop)])
+        while isinstance(it, ast.Call) and dotted(it.func) in ("list", "tuple") and len(it.args) == 1 and not it.keywords:
+            it = it.args[0]
+        return isinstance(it, ast.Call) and not it.args and not it.keywords and \
+            any(isinstance(t, FuncInfo) and (t is gadc or (t.name == gadc.name and t.cls is not None and gadc.cls in t.cls.mro()))
+                for t in P.call_targets(f2, it, count=False))
+
+    def loop_variable(f2, fl2, expr, st):
+        """(version token, for statement) when `expr` is the variable of a for loop, else (None, None)."""
+        x = fl2.expand(expr, st)
+        if not isinstance(x, ast.Name):
+            return None, None
+        mo = re.match(r"^(.+)@([0-9]+)$", x.id)
+        di = fl2.defs.get(int(mo.group(2))) if mo else None
+        if di is None or di.kind != "for" or not isinstance(di.stmt, ast.For) or not isinstance(di.stmt.target, ast.Name):
+            return None, None
+        return x, di.stmt
+
     ch = P.func(f"{MT}.check_and_delete_time_validity")
     fl = ctx.flows.get(ch)
-    dels = [c for c in P.calls_in(ch) if isinstance(c.func, ast.Attribute) and c.func.attr == "del_provider_data"]
+    del_target = P.func(f"{MT}.del_provider_data")
+    dels = [c for c in P.calls_in(ch) if isinstance(c.func, ast.Attribute) and
+            any(isinstance(t, FuncInfo) and t.name == del_target.name for t in P.call_targets(ch, c, count=False))]
     for c in dels:
-        conds = [norm(pretty(f.xkey)) for f in fl.state_at(c).facts if f.kind == "cond" and f.pol]
-        ok = any(re.fullmatch(r"TimestampIts\.initialize_with_utc_timestamp_seconds\(int\(TimeService\.time\(\)\)\)>"
-                              r"TimestampIts\((data_container\w*\['timeValidity'\]\*1000\+data_container\w*\['timestamp'\]|"
-                              r"data_container\w*\['timestamp'\]\+data_container\w*\['timeValidity'\]\*1000)\)", k) for k in conds)
+        st = fl.state_at(c)
+        obj, loop = loop_variable(ch, fl, c.args[0], st) if len(c.args) == 1 else (None, None)
+        same_obj = obj is not None and scans_all(ch, fl, loop)
+        ok, seen = False, []
+        for f in st.facts:
+            if f.kind != "cond" or not f.pol or not isinstance(f.xnode, ast.Compare) or len(f.xnode.ops) != 1:
+                continue
+            seen.append(pretty(f.xkey))
+            # canonical form of `expiry instant < now` is `now > expiry instant`
+            if not isinstance(f.xnode.ops[0], ast.Gt) or not sem.same(f.xnode.left, NOW) or obj is None:
+                continue
+            r = f.xnode.comparators[0]
+            if not (isinstance(r, ast.Call) and len(r.args) == 1 and not r.keywords and
+                    P.resolve_expr_entity(ch.module, r.func) is P.resolve_expr_entity(ch.module, ast.parse("TimestampIts", mode="eval").body)):
+                continue
+            member = lambda k: ast.Subscript(value=copy.deepcopy(obj), slice=ast.Constant(k), ctx=ast.Load())
+            want = ast.BinOp(left=ast.BinOp(left=member("timeValidity"), op=ast.Mult(), right=ast.Constant(1000)),
+                             op=ast.Add(), right=member("timestamp"))
+            if to_poly(P, ch.module, r.args[0]) == to_poly(P, ch.module, want):
+                ok = True
         ctx.ob("C12.expiry", ch.short(), "predicate", ok,
                "an object is deleted exactly when timestamp + validity (s -> ms) lies before now" if ok else
-               f"expiry predicate changed: {conds[:2]}", f"{ch.module.rel}:{c.lineno}")
-        ctx.ob("C12.expiry", ch.short(), "deletes-that-object", norm(unparse(c.args[0])) == "data_container",
-               "the expired object itself is deleted", f"{ch.module.rel}:{c.lineno}")
+               f"expiry predicate changed: {seen[:2]}", f"{ch.module.rel}:{c.lineno}")
+        ctx.ob("C12.expiry", ch.short(), "deletes-that-object", same_obj,
+               "the expired object itself (the one under examination in the scan) is deleted" if same_obj else
+               f"`{unparse(c.args[0]) if c.args else ''}` is deleted, which is not the object the scan is examining",
+               f"{ch.module.rel}:{c.lineno}")
     if not dels:
         raise AnalysisError("C12: expiry no longer deletes")
     # every stored object is examined: the scan over the containers has no early exit
     for fn_name in ("check_and_delete_time_validity", "check_and_delete_area_of_maintenance"):
         f2 = P.func(f"{MT}.{fn_name}")
+        fl2 = ctx.flows.get(f2)
         loops = [n for n in ast.walk(f2.node) if isinstance(n, (ast.For, ast.While))]
         if not loops:
             raise AnalysisError(f"C12: {fn_name} no longer scans the containers")
         for lp in loops:
             exits = [n for n in ast.walk(lp) if isinstance(n, (ast.Break, ast.Return))]
-            over_all = isinstance(lp, ast.For) and norm(unparse(lp.iter)) == "self.get_all_data_containers()"
+            over_all = scans_all(f2, fl2, lp)
             ctx.ob("C12.expiry", f2.short(), "scan-is-complete", over_all and not exits,
                    "maintenance examines every stored object (loop over get_all_data_containers() without break/return)" if over_all and not exits else
                    "the maintenance scan can stop early or does not range over all containers: an expired object behind a live one stays in the store",
@@ -260,12 +702,79 @@ def run(ctx):
                        f"{m.name} changes {reg} and resets the cached view {cache}" if inval else
                        f"{getter} answers from the cached view `{cache}`, but {m.name} changes {reg} without resetting it: the gate keeps "
                        "seeing a stale registry (a deregistered application is still accepted / a registered one refused)", m.loc)
+    # garbage collection certainly applies the time-validity predicate (must-call on every normal exit)
     ct = P.func(f"{MT}.collect_trash")
-    ctx.ob("C12.expiry", ct.short(), "runs-time-validity", "self.check_and_delete_time_validity()" in norm(unparse(ct.node)),
-           "garbage collection applies the time-validity predicate", ct.loc)
+    cfl = ctx.flows.get(ct)
+    normal = [st for k, s_, st in cfl.exits if k in ("return", "fall")]
+    runs = bool(normal) and all(any(f.kind == "call" and ch.qual in f.targets for f in st.facts) for st in normal)
+    ctx.ob("C12.expiry", ct.short(), "runs-time-validity", runs,
+           "garbage collection applies the time-validity predicate on every path" if runs else
+           "collect_trash can finish without having run check_and_delete_time_validity: expired objects stay in the store", ct.loc)
+    # reactive maintenance: adding an object triggers garbage collection; the only admissible guard is the rate limit
     ra = P.func(f"{LDM}.ldm_maintenance_reactive.LDMMaintenanceReactive.add_provider_data")
-    ctx.ob("C12.expiry", ra.short(), "reactive-trigger", "self.collect_trash()" in norm(unparse(ra.node)),
-           "reactive maintenance collects trash from add_provider_data", ra.loc)
+    rfl = ctx.flows.get(ra)
+    trig = [c for c in P.calls_in(ra) if any(isinstance(t, FuncInfo) and (t is ct or (t.name == ct.name and t.cls is not None and ct.cls in t.cls.mro()))
+                                             for t in P.call_targets(ra, c, count=False))]
+    if not trig:
+        ctx.ob("C12.expiry", ra.short(), "reactive-trigger", False,
+               "reactive maintenance no longer collects trash from add_provider_data: nothing ever expires", ra.loc)
+    for c in trig:
+        guards, problems = path_guards(rfl, ra, c)
+        for test, pol, gstmt in guards:
+            x = rfl.expand(test, rfl.before[id(gstmt)])
+            for node, p in cond_atoms(x, pol):
+                if not _is_rate_limit(P, ra, node, p):
+                    problems.append(f"it is reached only when `{'' if p else 'not '}{pretty(unparse(node))[:70]}` holds")
+        ok = not problems
+        ctx.ob("C12.expiry", ra.short(), "reactive-trigger", ok,
+               "reactive maintenance collects trash from add_provider_data (guarded by the collection interval at most)" if ok else
+               "collect_trash() in add_provider_data is guarded by more than the collection interval: " + "; ".join(problems[:3]) +
+               " - while that does not hold, expired objects are never removed", f"{ra.module.rel}:{c.lineno}")
+
+
+CLOCKS = {"time.monotonic", "time.time", "time.perf_counter"}
+
+
+def _clock(P, fi: FuncInfo, e: ast.AST):
+    if isinstance(e, ast.Call) and not e.args and not e.keywords and dotted(e.func):
+        n = P._external_name(fi.module, e.func)
+        return n if n in CLOCKS else None
+    return None
+
+
+def _is_rate_limit(P, fi: FuncInfo, node: ast.AST, pol: bool) -> bool:
+    """`<clock>() - self.<stamp> >= <non-negative constant>` where every store to self.<stamp> in the class hierarchy
+    assigns a reading of the same clock: the test of a minimum interval since the last stamped event."""
+    if not pol or not isinstance(node, ast.Compare) or len(node.ops) != 1 or not isinstance(node.ops[0], ast.GtE):
+        return False
+    a, b = node.left, node.comparators[0]
+    lim = P.try_fold(fi.module, b, default=None)
+    if not isinstance(lim, (int, float)) or isinstance(lim, bool) or lim < 0:
+        return False
+    if not (isinstance(a, ast.BinOp) and isinstance(a.op, ast.Sub)):
+        return False
+    clk = _clock(P, fi, a.left)
+    d = dotted(a.right)
+    if clk is None or d is None or not d.startswith("self.") or d.count(".") != 1 or fi.cls is None:
+        return False
+    attr = d[5:]
+    stamped = 0
+    for c in fi.cls.mro():
+        for m in c.methods.values():
+            for n in ast.walk(m.node):
+                tgt = val = None
+                if isinstance(n, ast.Assign):
+                    for t in n.targets:
+                        if dotted(t) == d:
+                            tgt, val = t, n.value
+                elif isinstance(n, (ast.AnnAssign, ast.AugAssign)) and dotted(n.target) == d:
+                    tgt, val = n.target, (n.value if isinstance(n, ast.AnnAssign) else None)
+                if tgt is None:
+                    continue
+                if val is None or _clock(P, m, val) != clk:
+                    return False
+                stamped += 1
+    return stamped > 0
 
 
 def _why(w, m, loc) -> str:
